@@ -37,12 +37,8 @@ structure LocPlan where
   divisions : List Nat
   deriving Repr, DecidableEq
 
-/-- `LocSlice` on a frame with known divisions `divs` (≥ 2 entries) for `.loc[a:b]` (`none` = open end).
-    `none` result = the Python code raises. -/
-def locSlice (divs : List Nat) (a b : Option Nat) : Option LocPlan := do
-  if divs.length < 2 then none
-  let d0 ← divs.head?
-  let dl ← divs.getLast?
+/-- `LocSlice.start/stop/istart/istop/_divisions` once the first and last division are known -/
+def locSliceCore (divs : List Nat) (d0 dl : Nat) (a b : Option Nat) : Option LocPlan :=
   let start := match a with | some x => partitionOf divs x | none => 0
   let stop := match b with | some x => partitionOf divs x | none => divs.length - 2
   let istart := match a, b with
@@ -53,15 +49,25 @@ def locSlice (divs : List Nat) (a b : Option Nat) : Option LocPlan := do
     | some y, _ => y
     | none, none => dl
     | none, some x => max dl x
-  if stop = start then pure ⟨start, stop, [istart, istop]⟩ else
-  let dstart ← match a with
+  if stop = start then some ⟨start, stop, [istart, istop]⟩ else
+  let dstart := match a with
     | none => some d0
     | some _ => (divs[start]?).map (max istart)
-  let dstop ← match b with
+  let dstop := match b with
     | none => some dl
     | some _ => (divs[stop + 1]?).map (min istop)
   -- `frame.divisions[start + 1 : stop + 1]` (empty when start > stop)
-  pure ⟨start, stop, dstart :: ((divs.drop (start + 1)).take (stop + 1 - (start + 1)) ++ [dstop])⟩
+  match dstart, dstop with
+  | some ds, some de => some ⟨start, stop, ds :: ((divs.drop (start + 1)).take (stop + 1 - (start + 1)) ++ [de])⟩
+  | _, _ => none
+
+/-- `LocSlice` on a frame with known divisions `divs` (≥ 2 entries) for `.loc[a:b]` (`none` = open end).
+    `none` result = the Python code raises. -/
+def locSlice (divs : List Nat) (a b : Option Nat) : Option LocPlan :=
+  if divs.length < 2 then none else
+  match divs.head?, divs.getLast? with
+  | some d0, some dl => locSliceCore divs d0 dl a b
+  | _, _ => none
 
 /-- rows of one partition selected by `df.loc[a:b]` (both ends inclusive, `none` = open) -/
 def locRows {α : Type} (key : α → Nat) (rows : List α) (a b : Option Nat) : List α :=
